@@ -34,6 +34,19 @@ claimed = {
  "C15": dict(text="Every sequence (bounded length) of the Response writing calls over a writer that starts failing at a symbolic call and accepts a symbolic prefix: the solver proves "
              "StatusCode() = status received, ContentLength() = bytes accepted (before coding when a CompressingResponseWriter sits underneath) and that the failing call returns the writer's error.",
              design="5 (C15)"),
+ "C07": dict(text="Every combination of entry point, container/route encoding switch, outcome kind and provider is executed with a symbolic Accept-Encoding header, payload chunks and pre-set "
+             "Content-Encoding; compressors are typestate stubs emitting one token ENC(coding, payload): the solver proves that an encoded response is one complete stream of the coding "
+             "named in Content-Encoding whose payload is exactly the bytes written in order, that the coding is the one Accept-Encoding asks for first and that encoding is enabled, and "
+             "that otherwise the body is exactly the raw bytes. That real gzip/zlib streams decode to their input is assumed (checked natively on the replayed witnesses only).", design="5 (C07)"),
+ "C10": dict(text="The panic position is a symbolic choice over every position of a generated filter chain (before/after each filter passes on, handler before/after writing); for recovery on/off, "
+             "encoding on/off and both entry points the solver proves: recover handler once with the panic value and the active writer, complete decodable body, nothing escapes (or the same "
+             "value propagates when recovery is off), no lock held, compressor ledger clean, and the next request on the same container is served normally.", design="5 (C10)"),
+ "C11": dict(text="Explicit histories (<= 4 operations over a menu of 9 root paths, enumerated) build a container; a fresh container is built from the model of its final content; both get the same "
+             "symbolic probe request through Dispatch and through ServeHTTP (ServeMux modelled) and must answer identically; Add/Remove must not panic. The inductive formulation of the design was "
+             "not built: the claim is bounded by history length.", design="5 (C11)"),
+ "C19": dict(text="Per configuration family the same (or a second) symbolic request is served again on the same container and compared with the first answer / a fresh twin; a frame monitor in the "
+             "executor classifies every store made while serving by the allocation epoch of its target and reports stores to state that outlives the request; trace on/off must agree; values "
+             "handed to one handler are scribbled on and must not reach the next.", design="5 (C19), 2.7"),
  "C06": dict(text="Enumerated filter counts per level and entry modes; each generated filter's behaviour (pass on / stop, replace the request-response pair, set an attribute, http middleware) "
              "is a symbolic bit; the solver proves on every path that the log of filter and handler invocations equals the reference sequence and that the pair and attributes passed on are "
              "the ones received, also after an earlier request on the same container.", design="5 (C06)"),
